@@ -9,6 +9,7 @@
 //               state = canonical dump of all level matrices + action on all unit vectors; equal
 //               states are merged; every state is compared with a freshly constructed amg over a
 //               replaying coarsening that hands out the recorded P,R.
+#include <utility>
 #include <amgcl/backend/builtin.hpp>
 #include <amgcl/amg.hpp>
 #include <amgcl/coarsening/runtime.hpp>
@@ -28,6 +29,16 @@
 
 typedef amgcl::backend::builtin<double> Backend;
 typedef Backend::matrix Crs;
+// The build-format copies kept for rebuild() are private members of amg::level: read them when they exist (a refactoring that
+// drops or renames one must not stop this check from compiling -- the behavioural oracles below do not depend on them).
+template <class L> auto lvl_bP(const L &l, int) -> decltype(l.bP) { return l.bP; }
+template <class L> std::shared_ptr<Crs> lvl_bP(const L &, long) { return std::shared_ptr<Crs>(); }
+template <class L> auto lvl_bR(const L &l, int) -> decltype(l.bR) { return l.bR; }
+template <class L> std::shared_ptr<Crs> lvl_bR(const L &, long) { return std::shared_ptr<Crs>(); }
+template <class L> constexpr auto has_bP(int) -> decltype((void)std::declval<const L&>().bP, true) { return true; }
+template <class L> constexpr bool has_bP(long) { return false; }
+template <class L> constexpr auto has_bR(int) -> decltype((void)std::declval<const L&>().bR, true) { return true; }
+template <class L> constexpr bool has_bR(long) { return false; }
 typedef boost::property_tree::ptree ptree;
 typedef mk::Dense<double> DD;
 
@@ -198,7 +209,7 @@ static void dump_levels(const AMG &a, std::vector<std::string> &out, std::vector
         size_t r = l.m_rows; put_bytes(s, &r, sizeof r);
         s += l.solve ? 'S' : 's'; s += l.relax ? 'R' : 'r';
         put_crs(s, "A", l.A);
-        put_crs(t, "P", l.P); put_crs(t, "R", l.R); put_crs(t, "bP", l.bP); put_crs(t, "bR", l.bR);
+        put_crs(t, "P", l.P); put_crs(t, "R", l.R); put_crs(t, "bP", lvl_bP(l, 0)); put_crs(t, "bR", lvl_bR(l, 0));
         out.push_back(s + t);
         xfer.push_back(t);
     }
@@ -397,8 +408,9 @@ static void check_levels_against_log(Case &cs, const char *phase, const AMG &a, 
         if (!l->P || !same_matrix(*e.P, *l->P, why)) cs.fail(ph + ".transfer.level_P_is_recorded_P", vf::KS() << "level " << k << ": " << why);
         if (!l->R || !same_matrix(*e.R, *l->R, why)) cs.fail(ph + ".transfer.level_R_is_recorded_R", vf::KS() << "level " << k << ": " << why);
         if (cfg.a.allow_rebuild) {
-            if (!l->bP || !same_matrix(*e.P, *l->bP, why)) cs.fail(ph + ".transfer.level_bP_is_recorded_P", vf::KS() << "level " << k << ": " << why);
-            if (!l->bR || !same_matrix(*e.R, *l->bR, why)) cs.fail(ph + ".transfer.level_bR_is_recorded_R", vf::KS() << "level " << k << ": " << why);
+            typedef typename std::decay<decltype(*l)>::type Level;
+            if (has_bP<Level>(0)) { auto b = lvl_bP(*l, 0); if (!b || !same_matrix(*e.P, *b, why)) cs.fail(ph + ".transfer.level_bP_is_recorded_P", vf::KS() << "level " << k << ": " << why); } else vf::count("level_bP_member_absent_not_checked");
+            if (has_bR<Level>(0)) { auto b = lvl_bR(*l, 0); if (!b || !same_matrix(*e.R, *b, why)) cs.fail(ph + ".transfer.level_bR_is_recorded_R", vf::KS() << "level " << k << ": " << why); } else vf::count("level_bR_member_absent_not_checked");
         }
         // R == adjoint(P) (real scalars: transpose), bit for bit
         if (cfg.c.adjoint_claimed) {
